@@ -1136,6 +1136,9 @@ impl CanonicalizeContext {
 						}
 					}
 					let mathml = if element_name == "mmultiscripts" {clean_mmultiscripts(mathml).unwrap()} else {mathml};
+					if element_name == "mmultiscripts" && name(&mathml) != "mmultiscripts" {
+						return Some(mathml);		// all the scripts were dropped -- only the (already cleaned) base is left
+					}
 					if !is_chemistry_off(mathml) {
 						let likely_chemistry = likely_adorned_chem_formula(mathml);
 						// debug!("likely_chemistry={}, {}", likely_chemistry, mml_to_string(&mathml));
@@ -1467,11 +1470,17 @@ impl CanonicalizeContext {
 						i += 1;
 					} else if i+1 < n && child_name == "none" && name(&as_element(children[i+1])) == "none" {
 						i += 2;		// found none, none pair
-					} else {
+					} else if i+1 < n {
 						// copy pair
 						new_children.push(children[i]);
 						new_children.push(children[i+1]);
 						i += 2;
+					} else {
+						// last script has no partner (children were removed during cleaning) -- pad the pair
+						new_children.push(children[i]);
+						let mtext = CanonicalizeContext::create_empty_element(&mathml.document());
+						new_children.push(ChildOfElement::Element(mtext));
+						i += 1;
 					}
 				}
 				if new_children.len() == 1 {
